@@ -3133,6 +3133,9 @@ def groupby_scan(
     # avoid some roundoff error when we can.
     if by_.shape[-1] == 1 or by_.shape == grp_shape:
         array = array.astype(agg.dtype)
+        if agg.name == "nancumsum" and array.dtype.kind in "fc":
+            # a one-member group still has its NaN counted as the identity, like np.nancumsum
+            array = np.where(isnull(array), agg.identity, array)
         if cast_to is not None:
             array = array.astype(cast_to)
         return array
